@@ -88,14 +88,15 @@ pub fn c12_rotate() {
     unsafe { vstd::vfs::ENV.push(("NUN_MAX_OP_LOG_SIZE", "750")); }
     let n = vsym::param("n", 7);
     let mut w = Oplog::get_log_file_append_mode();
-    let mut times: Vec<u64> = Vec::new(); let mut keys: Vec<u64> = Vec::new();
+    let mut times: Vec<u64> = Vec::new(); let mut keys: Vec<u64> = Vec::new(); let mut kinds: Vec<u8> = Vec::new();
     let mut i = 0; let mut prev = 0u64;
     while i < n {
         let t = vsym::any_u64("t"); vsym::assume(t > prev && t < 1_000_000);
         let k = 10 + vsym::choice("key", 2) as u64;
-        let r = Oplog::try_write_op_log(&mut w, Some(1), k, &ReplicateOpp::Update, t);
+        let kind = if vsym::param("kinds", 0) == 1 { vsym::choice("kind", 2) } else { 0 };      // update / remove
+        let r = Oplog::try_write_op_log(&mut w, Some(1), k, &kind_of(kind), t);
         vsym::check("rotate.write-ok", r.is_ok());
-        times.push(t); keys.push(k); prev = t; i += 1;
+        times.push(t); keys.push(k); kinds.push(kind_of(kind).to_u8()); prev = t; i += 1;
     }
     let since = vsym::any_u64("since");
     let ops = read_operations_since(since);
@@ -106,7 +107,10 @@ pub fn c12_rotate() {
         if let Some(j) = newest {
             if times[j] >= since {
                 vsym::cover("rotate.key-at-or-after", true);
-                vsym::check("rotate.complete", ops.contains_key(&["1_", &k.to_string()].concat()));
+                match ops.get(&["1_", &k.to_string()].concat()) {
+                    Some(rec) => { vsym::check("rotate.labelled-with-most-recent-kind", rec.opp.to_u8() == kinds[j]); vsym::check("rotate.most-recent-time", rec.timestamp == times[j]); }
+                    None => vsym::check("rotate.complete", false),
+                }
             }
         }
         k += 1;
